@@ -211,6 +211,24 @@ theorem pulse_valid (amp det : List Rat) (ph post : Rat) (p : PulseM)
 example : (mkPulse [1, 2] [0, 0] (-1) 0).map (·.phase) = some (twoPi - 1) ∧
     mkPulse [1, -2] [0, 0] 0 0 = none ∧ mkPulse [1] [0, 0] 0 0 = none := by decide +kernel
 
+/-- **A pulse is refused exactly when it must be**: `Pulse.__init__` accepts iff the two waveforms
+have the same duration and no amplitude sample is negative (whatever the phases). -/
+theorem pulse_accepted_iff (amp det : List Rat) (ph post : Rat) :
+    (mkPulse amp det ph post).isSome ↔ (det.length = amp.length ∧ ∀ x ∈ amp, 0 ≤ x) := by
+  unfold mkPulse
+  by_cases h1 : det.length = amp.length
+  · cases h2 : amp.any (· < 0)
+    · have h3 : ∀ x ∈ amp, 0 ≤ x := by
+        intro x hx
+        have := (List.any_eq_false.mp h2) x hx
+        exact not_lt.mp (by simpa using this)
+      simp [h1]; exact h3
+    · obtain ⟨x, hx, hlt⟩ := List.any_eq_true.mp h2
+      have hlt' : x < 0 := by simpa using hlt
+      have h3 : ¬ ∀ x ∈ amp, 0 ≤ x := fun h => absurd (h x hx) (not_le.mpr hlt')
+      simp [h1, h3]
+  · simp [h1]
+
 /-- **Arbitrary phase (general branch).**  With `δ = pad(−diff(φ)·10³, (1,0), edge)` and
 `φ_c = φ[0] + δ[0]·10⁻³`, the phase modulation `φ_c − cumsum(δ·10⁻³)` reproduces `φ` at every
 sample (unreduced phases; the `% 2π` of `Pulse.__init__` is `pulse_phase_range`). -/
